@@ -35,8 +35,9 @@ F_STOPLOSS = 'C01-stoploss'
 F_D14 = 'D14'
 F_PEPSIN = 'D14b-lookbehind'
 F_ADJ = 'C01-nola-adjacent-sites'
-F_SECVOID = 'C02-fusion-sec-at-breakpoint'
 F_FUSCRASH = 'C01-fusion-expand-crash'
+F_ENDINCL = 'C01-end-inclusion-crash'
+F_FUSJUNC = 'C02-fusion-junction-indel'
 
 # ------------------------------------------------------------------ rule classes (from the repo's table)
 _RC = {}
@@ -165,6 +166,12 @@ def is_fusion_crash(ev):
     return (bool(ev.case.get('fusions')) and r.get('__exc__') == 'ValueError'
             and 'expand_alignments' in r.get('tb', '') and 'call_peptide_fusion' in r.get('tb', ''))
 
+def is_end_inclusion_crash(ev):
+    """callVariant aborts in VariantRecord.to_end_inclusion (IndexError): an indel anchored on the last base of the
+    start codon (or at position 2 of a non-coding transcript) reaches the end of the transcript sequence"""
+    r = ev.exc or {}
+    return r.get('__exc__') == 'IndexError' and 'to_end_inclusion' in r.get('tb', '')
+
 def _cds_end(case, tx_id):
     g, t = _tx_of(case, tx_id)
     return t['cds'][1] if t['cds'] else None
@@ -196,7 +203,10 @@ def classify(evs):
             for tx_id, x in ev.xs.items():
                 recs = ev.recs[tx_id]
                 if fl:
-                    # an alt form: judge the derivations of every obliged product it is a form of
+                    # an alt form: judge the derivations of every obliged product it is a form of -- only in
+                    # the transcripts that oblige p at all (elsewhere p may be a mere reference product)
+                    if p not in [O.U(q) for q in O.call('cv_must_fl', [x, fl])]:
+                        continue
                     bases = [O.U(q) for q in O.call('cv_must_bases_fl', [x, fl, p])]
                     xw = unlimited(x)
                 else:
@@ -227,11 +237,18 @@ def classify(evs):
                 if any(SG.substring_realizable(x, p) for x in ev.xs.values()):
                     tag = F_PEPSIN
             if tag is None and not run_flags(ev.run):
+                # fusion: an indel record within 3 nt of a breakpoint makes the engine lose / gain a base at the junction
                 for f in ev.case.get('fusions', []):
-                    xd = CG.tx_input(ev.case, f['donor_tx'], ev.recs.get(f['donor_tx'], []), ev.run)
-                    xa = CG.tx_input(ev.case, f['acc_tx'], ev.recs.get(f['acc_tx'], []), ev.run)
-                    if xd[5] and O.call('cv_fusion_realizable_secvoid', [xd, f['bp'], xa, f['abp'], [p]])[0]:
-                        tag = F_SECVOID
+                    dr = ev.recs.get(f['donor_tx'], []); ar = ev.recs.get(f['acc_tx'], [])
+                    near = [r for r in dr if len(r['alt']) != r['e'] - r['s'] and f['bp'] - 3 <= r['e'] <= f['bp'] + 3] + \
+                           [r for r in ar if len(r['alt']) != r['e'] - r['s'] and f['abp'] - 3 <= r['s'] <= f['abp'] + 3]
+                    if not near:
+                        continue
+                    xd = CG.tx_input(ev.case, f['donor_tx'], dr, ev.run); xa = CG.tx_input(ev.case, f['acc_tx'], ar, ev.run)
+                    alts = [(d1, d2) for d1 in (-1, 0, 1) for d2 in (-1, 0, 1) if (d1, d2) != (0, 0)]
+                    oks = O.call_many([('cv_fusion_realizable', [xd, f['bp'] + d1, xa, f['abp'] + d2, [p]]) for d1, d2 in alts])
+                    if any(o[0] for o in oks):
+                        tag = F_FUSJUNC
             if tag is None and not run_flags(ev.run):
                 # a site that needs look-behind (e.g. trypsin W-K-P) missed by the node-local evaluation
                 if any(O.call('cv_realizable_relaxed2', [x, [p]])[0] for x in ev.xs.values()):
